@@ -172,11 +172,12 @@ package machine
 // A guarded field is written only with its mutex held for writing and read only
 // with it held (read or write), in every function that lists C12. The goroutine
 // that owns the queue is the only writer of the owner-read fields and may read
-// them without the lock.
+// them without the lock. For schema and stateNames this rests on SetSchema
+// refusing to run while a transition is in progress (m.t != nil): assumed.
 //@ guard Machine.activeStates by activeStatesMx owner-reads
 //@ guard Machine.clock by activeStatesMx owner-reads
-//@ guard Machine.schema by schemaMx
-//@ guard Machine.stateNames by schemaMx
+//@ guard Machine.schema by schemaMx owner-reads
+//@ guard Machine.stateNames by schemaMx owner-reads
 //@ guard Machine.stateNamesExport by schemaMx
 //@ guard Machine.groups by schemaMx
 //@ guard Machine.groupsOrder by schemaMx
@@ -212,7 +213,9 @@ package machine
 //@    : ((mem(prev, s) && !mem(target, s)) ? 1 : 0))
 
 //@ func (m *Machine) setActiveStates(calledStates S, targetStates S, isAuto bool) (previous S)
-//@   props C01 C03
+//@   props C01 C03 C12
+//@   requires held: locked(m.activeStatesMx)
+//@   owner
 //@   requires locks: unlocked(m.schemaMx)
 //@   requires tx:    m.t != nil
 //@   requires tgt:   m.disposing || (nodup(targetStates) && subset(targetStates, m.stateNames))
@@ -252,7 +255,7 @@ package machine
 //@   ensures  locks: unlocked(m.schemaMx)
 
 //@ func (m *Machine) mustParseStates(states S) (ret S)
-//@   props C01 C02 C20
+//@   props C01 C02 C20 C12
 //@   abstracts panics when a state is unknown: excluded by the precondition `known` (documented domain)
 //@   requires locks: unlocked(m.schemaMx)
 //@   requires known: Known(m, states)
@@ -264,7 +267,7 @@ package machine
 //@   loop 1 invariant dups: dups <==> (exists a, b int :: 0 <= a && a < b && b < i && states[a] == states[b])
 
 //@ func (m *Machine) ParseStates(states S) (ret S)
-//@   props C11 C20
+//@   props C11 C20 C12
 //@   requires locks: unlocked(m.schemaMx)
 //@   ensures  disposing: old(m.disposing) ==> isnil(ret)
 //@   ensures  def:   !old(m.disposing) ==> nodup(ret) && (forall x string :: mem(ret, x) <==> mem(states, x) && has(m.schema, x))
@@ -274,7 +277,8 @@ package machine
 //@   loop 1 invariant mem:  forall x string :: mem(ret, x) <==> (has(m.schema, x) && (exists j int :: 0 <= j && j < i && states[j] == x))
 
 //@ func (m *Machine) is(states S) (r bool)
-//@   props C01
+//@   props C01 C12
+//@   requires held: rlocked(m.activeStatesMx) || ghost.owner == 1
 //@   ensures def: r <==> (!m.disposing && AllActive(m, states))
 //@   loop 1 invariant all: forall j int :: 0 <= j && j < idx1 ==> mem(m.stateNames, states[j]) && mem(m.activeStates, states[j])
 
@@ -291,7 +295,8 @@ package machine
 //@   ensures  locks: unlocked(m.activeStatesMx)
 
 //@ func (m *Machine) not(states S) (r bool)
-//@   props C01
+//@   props C01 C12
+//@   requires held: rlocked(m.activeStatesMx) || ghost.owner == 1
 //@   abstracts panics when a state is unknown: excluded by the precondition `known`
 //@   requires locks: unlocked(m.schemaMx)
 //@   requires known: Known(m, states)
@@ -306,7 +311,7 @@ package machine
 //@   ensures  locks: unlocked(m.activeStatesMx) && unlocked(m.schemaMx)
 
 //@ func (m *Machine) Any(states ...S) (r bool)
-//@   props C01 C20
+//@   props C01 C20 C12
 //@   requires locks: unlocked(m.activeStatesMx)
 //@   ensures  def:   r <==> (exists k int :: 0 <= k && k < len(states) && !m.disposing && AllActive(m, states[k]))
 //@   ensures  locks: unlocked(m.activeStatesMx)
@@ -320,7 +325,8 @@ package machine
 //@   loop 1 invariant none: unlocked(m.activeStatesMx) && (forall k int :: 0 <= k && k < idx1 ==> !(!m.disposing && mem(m.stateNames, states[k]) && mem(m.activeStates, states[k])))
 
 //@ func (m *Machine) time(states S) (ret Time)
-//@   props C01
+//@   props C01 C12
+//@   requires held: rlocked(m.activeStatesMx) || ghost.owner == 1
 //@   requires locks: unlocked(m.schemaMx)
 //@   ensures  disposed: old(m.disposed) ==> isnil(ret)
 //@   ensures  all:   !old(m.disposed) && isnil(states) ==> len(ret) == len(m.stateNames) && (forall i int :: 0 <= i && i < len(ret) ==> ret[i] == m.clock[m.stateNames[i]])
@@ -364,7 +370,7 @@ package machine
 //@   loop 1 invariant sel: fresh(ret) && (forall x string :: mem(ret, x) <==> (exists j int :: 0 <= j && j < idx1 && states[j] == x && mem(m.activeStates, x)))
 
 //@ func (m *Machine) Has(states S) (r bool)
-//@   props C20
+//@   props C20 C12
 //@   ensures def: r <==> (!m.disposing && subset(states, m.stateNames))
 
 // ---- trusted frame contracts: step recording ----
@@ -531,7 +537,7 @@ package machine
 //@   ensures  locks: unlocked(m.tracersMx)
 
 //@ func (m *Machine) Switch(groups ...S) (r string)
-//@   props C01 C20
+//@   props C01 C20 C12
 //@   requires locks: unlocked(m.activeStatesMx)
 //@   ensures  hit:   r != "" ==> !m.disposing && mem(m.activeStates, r) && (exists g int :: 0 <= g && g < len(groups) && mem(groups[g], r))
 //@   requires names: forall g int, x string :: 0 <= g && g < len(groups) && mem(groups[g], x) ==> x != ""
@@ -558,7 +564,8 @@ package machine
 //@   ensures  other:  mutType != MutationAdd && mutType != MutationRemove && mutType != MutationSet ==> isnil(ret)
 
 //@ func (t *Transition) setupExitEnter()
-//@   props C05 C03
+//@   props C05 C03 C12
+//@   owner
 //@   requires nn:    t.Machine != nil && t.Mutation != nil && t.Machine.resolver != nil
 //@   requires cached: t.cacheTargetStates != nil && t.Mutation.cacheCalled != nil
 //@   ghost tgt S, cld S
@@ -596,7 +603,8 @@ package machine
 //@ pred AutoWanted(m *Machine, x string) := AutoWantedV(m.schema, m.stateNames, m.activeStates, m.disposing, x)
 
 //@ func (rr *DefaultRelationsResolver) NewAutoMutation() (mut *Mutation, names S)
-//@   props C07 C11
+//@   props C07 C11 C12
+//@   owner
 //@   requires nn:    rr.Transition != nil && rr.Transition.Machine != nil
 //@   requires names: SchemaInv(rr.Transition.Machine)
 //@   ensures  set:   forall x string :: mem(names, x) <==> AutoWanted(rr.Transition.Machine, x)
@@ -857,6 +865,7 @@ package machine
 //@   ensures remove_excludes: (forall x string :: mem(calledStates, x) ==> Uncalled(t, index, x)) ==> (forall x string :: mem(ret, x) ==> Uncalled(t, index, x))
 //@ func (rr RelationsResolver) NewAutoMutation() (mut *Mutation, names S)
 //@   trusted interface contract; DefaultRelationsResolver.NewAutoMutation is verified against these clauses
+//@   owner
 //@   ensures none: (mut == nil) <==> (len(names) == 0)
 //@   ensures kind: mut != nil ==> fresh(mut) && mut.IsAuto && mut.Type == MutationAdd && !mut.IsCheck && mut.QueueTick == 0
 //@   ensures called: mut != nil ==> (forall i int :: 0 <= i && i < len(mut.Called) ==> 0 <= mut.Called[i] && mut.Called[i] < len(machOf(rr).stateNames))
@@ -873,7 +882,8 @@ package machine
 //@      (mem(active, s) && !(exists j int :: 0 <= j && j < len(enters) && k - len(exits) <= j && enters[j] == s))
 //@   || (exists j int :: k <= j && j < len(exits) && exits[j] == s)
 //@ func (m *Machine) recoverFinalPhase()
-//@   props C08 C01
+//@   props C08 C01 C12
+//@   owner
 //@   requires nn:    m.t != nil && m.t.Machine == m && m.t.Mutation != nil && m.t.Mutation.cacheCalled != nil
 //@   requires locks: unlocked(m.activeStatesMx) && unlocked(m.schemaMx) && unlocked(m.logEntriesLock)
 //@   requires inv:   ClockInv(m) && !isnil(m.clock)
@@ -905,7 +915,8 @@ package machine
 // transition is marked canceled and completed and an Add{Exception} mutation is
 // put at the very front of the queue, so it is the next transition to run.
 //@ func (m *Machine) recoverToErr(handler *handler, r recoveryData)
-//@   props C08
+//@   props C08 C12
+//@   owner
 //@   abstracts the restarted handler loop (go statement) is not executed; the error text is opaque (fmt)
 //@   requires nn:    m.t != nil && m.t.Machine == m && m.t.Mutation != nil && m.t.Mutation.cacheCalled != nil && m.t.cacheTargetStates != nil && m.t.MachApi != nil
 //@   requires owner: m.queueProcessing && QueueInv(m) && SchemaInv(m)
@@ -940,7 +951,7 @@ package machine
 //@   trusted inspects the called states for the Healthcheck / Heartbeat names
 
 //@ func (m *Machine) IsTime(t Time, states S) (r bool)
-//@   props C01 C20
+//@   props C01 C20 C12
 //@   requires locks: unlocked(m.activeStatesMx)
 //@   requires len:   len(t) <= (isnil(states) ? len(m.stateNames) : len(states))
 //@   ensures  def:   r <==> (!m.disposing && (forall i int :: 0 <= i && i < len(t) ==> m.clock[(isnil(states) ? m.stateNames : states)[i]] == t[i]))
@@ -971,7 +982,8 @@ package machine
 // transition is established here, the machine's clocks are not touched, and
 // every bound tracer is told once.
 //@ func newTransition(m *Machine, mut *Mutation) (t *Transition)
-//@   props C14 C01 C03 C05
+//@   props C14 C01 C03 C05 C12
+//@   owner
 //@   abstracts tracer callbacks are opaque (assumed not to assign machine state)
 //@   uses called_index
 //@   requires nn:    m != nil && mut != nil && m.resolver != nil && m.subs != nil && machOf(m.resolver) == m
@@ -994,7 +1006,8 @@ package machine
 
 // The transition executor.
 //@ func (t *Transition) emitEvents() (res Result)
-//@   props C01 C03 C05 C06 C07 C08 C14
+//@   props C01 C03 C05 C06 C07 C08 C14 C12
+//@   owner
 //@   abstracts the onChange callback and tracer callbacks are opaque (assumed not to assign machine state)
 //@   requires tx:    TxInv(t) && TargetOK(t) && t.cacheStatesBefore != nil && t.Machine.t == t && t.Machine.resolver != nil && t.Machine.subs != nil
 //@   requires owner: t.Machine.queueProcessing && QueueInv(t.Machine) && machOf(t.Machine.resolver) == t.Machine && unlocked(t.Machine.queueMx)
@@ -1114,7 +1127,7 @@ package machine
 //@ pred SameRequest(m *Machine, q *Mutation, mutType MutationType, states S, isCheck bool) := SameRequestV(m.stateNames, q.IsCheck, q.Type, q.Args, q.Called, mutType, states, isCheck)
 
 //@ func (m *Machine) IsQueued(mutType MutationType, states S, withoutArgsOnly bool, statesStrictEqual bool, minQueueTick uint64, isCheck bool, position Position) (found bool, idx uint16, qTick uint64)
-//@   props C04 C20
+//@   props C04 C20 C12
 //@   requires locks: unlocked(m.queueMx)
 //@   requires nn:    forall i int :: 0 <= i && i < len(m.queue) ==> m.queue[i] != nil
 //@   requires short: len(m.queue) <= 65535
@@ -1126,7 +1139,7 @@ package machine
 
 // A request is reported as a duplicate only when the same request is pending.
 //@ func (m *Machine) detectQueueDuplicates(mutationType MutationType, states S, isCheck bool) (r bool)
-//@   props C04
+//@   props C04 C12
 //@   requires locks: unlocked(m.queueMx)
 //@   requires nn:    forall i int :: 0 <= i && i < len(m.queue) ==> m.queue[i] != nil
 //@   requires short: len(m.queue) <= 65535
@@ -1138,7 +1151,7 @@ package machine
 //@   trusted getter of the source machine's current transition
 
 //@ func (m *Machine) queueMutation(mutType MutationType, states S, args A, event *Event) (r uint64)
-//@   props C04 C14
+//@   props C04 C14 C12
 //@   abstracts tracer callbacks (MutationQueued) and breakpoints are opaque
 //@   requires locks: unlocked(m.schemaMx) && unlocked(m.queueMx) && unlocked(m.tracersMx) && unlocked(m.activeStatesMx)
 //@   requires known: Known(m, states)
@@ -1164,7 +1177,7 @@ package machine
 //@   loop 1 invariant def: len(ret) == len(states) && fresh(ret) && !isnil(ret) && (forall j int :: 0 <= j && j < i && 0 <= states[j] && states[j] < len(index) ==> ret[j] == index[states[j]])
 
 //@ func (m *Machine) PrependMut(mut *Mutation) (r Result)
-//@   props C04 C07
+//@   props C04 C07 C12
 //@   abstracts tracer callbacks (MutationQueued) are opaque; processQueue is used through its trusted contract
 //@   requires nn:    mut != nil && mut.QueueTick == 0
 //@   requires called: SchemaInv(m) && (forall i int :: 0 <= i && i < len(mut.Called) ==> 0 <= mut.Called[i] && mut.Called[i] < len(m.stateNames))
@@ -1206,7 +1219,8 @@ package machine
 // Dropping a finished binding from the index removes that binding everywhere
 // and no other binding anywhere.
 //@ func (sm *Subscriptions) gcWhenTimeBinding(binding *WhenTimeBinding, gcCtx bool)
-//@   props C06
+//@   props C06 C12
+//@   requires held: locked(sm.Mx)
 //@   requires nn:     binding != nil && WTInv(sm)
 //@   requires listed: forall s string :: has(binding.Index, s) ==> mem(sm.whenTime[s], binding)
 //@   assigns  sm.whenTime, sm.whenTimeCtx
@@ -1235,7 +1249,7 @@ package machine
 // binding - a reused equal one or a new one - is listed under every state it
 // waits for, and no other binding is touched.
 //@ func (sm *Subscriptions) WhenTime(states S, times Time, ctx context.Context) (ch <-chan struct{})
-//@   props C06
+//@   props C06 C12
 //@   abstracts ctx.Err() is an opaque interface call; maps.Equal is modelled as map equality
 //@   requires inv:   WTInv(sm) && unlocked(sm.Mx)
 //@   requires args:  len(states) > 0 && len(times) == len(states) && nodup(states)
@@ -1252,14 +1266,14 @@ package machine
 //@   loop 4 invariant added:  forall s string :: mem(sm.whenTime[s], binding) <==> (exists j int :: 0 <= j && j < idx4 && states[j] == s)
 
 //@ func (sm *Subscriptions) WhenQuery(fn func(clock Clock) bool, ctx context.Context) (ch <-chan struct{})
-//@   props C06 C20
+//@   props C06 C20 C12
 //@   abstracts ctx.Err() is an opaque interface call
 //@   requires inv:   SubsInv(sm) && unlocked(sm.Mx)
 //@   assigns  sm.whenQuery, sm.whenQueryCtx, sm.Mx
 //@   ensures  locks: unlocked(sm.Mx)
 
 //@ func (sm *Subscriptions) WhenQueue(tick Result) (ch <-chan struct{})
-//@   props C04 C06
+//@   props C04 C06 C12
 //@   requires locks: unlocked(sm.Mx)
 //@   assigns  sm.whenQueue, sm.Mx
 //@   ensures  added: len(sm.whenQueue) == old(len(sm.whenQueue)) + 1 && (forall i int :: 0 <= i && i < old(len(sm.whenQueue)) ==> sm.whenQueue[i] == old(sm.whenQueue)[i])
@@ -1269,7 +1283,7 @@ package machine
 // ProcessWhenQueue: exactly the bindings whose tick has been reached are
 // collected for closing and dropped; the others stay, in order.
 //@ func (sm *Subscriptions) ProcessWhenQueue(queueTick uint64) (toClose []chan struct{})
-//@   props C04 C06
+//@   props C04 C06 C12
 //@   requires locks: unlocked(sm.Mx)
 //@   requires nn:    forall i int :: 0 <= i && i < len(sm.whenQueue) ==> sm.whenQueue[i] != nil
 //@   assigns  sm.whenQueue, sm.Mx
@@ -1297,7 +1311,8 @@ package machine
 // processWhenQueryCtx drops the query bindings whose context has expired: only
 // the query indexes may change.
 //@ func (sm *Subscriptions) processWhenQueryCtx() (ret []chan struct{})
-//@   props C06
+//@   props C06 C12
+//@   requires held: locked(sm.Mx)
 //@   abstracts ctx.Err() is an opaque interface call; gcWhenQueryBinding is inlined
 //@   requires inv: SubsInv(sm)
 //@   requires nn:  (forall c context.Context, i int :: has(sm.whenQueryCtx, c) && 0 <= i && i < len(sm.whenQueryCtx[c]) ==> sm.whenQueryCtx[c][i] != nil)
